@@ -36,16 +36,27 @@ func CmdWord(word string, pt CmdPatterns) string {
 			case '~':
 				suffix, stripped = pt.NoSpaceSuffix, word[:n-1]
 			}
+			// what remains may end in an escaped marker character (`foo\@@`): the backslash goes, the character stays
+			if m := len(stripped); m == n-1 && m >= 2 && (stripped[m-1] == '@' || stripped[m-1] == '~') {
+				bs := 0
+				for i := m - 2; i >= 0 && stripped[i] == '\\'; i-- {
+					bs++
+				}
+				if bs%2 == 1 {
+					stripped = stripped[:m-2] + stripped[m-1:]
+				}
+			}
 		} else {
 			stripped = word[:n-2] + word[n-1:]
 		}
 	}
 	var sb strings.Builder
-	for i := 0; i < len(stripped); i++ {
+	// between any two adjacent characters (not bytes)
+	for i, c := range stripped {
 		if i > 0 {
 			sb.WriteString(pt.Evasion)
 		}
-		switch c := stripped[i]; c {
+		switch c {
 		case '.':
 			sb.WriteString(`\.`)
 		case '-':
@@ -53,7 +64,7 @@ func CmdWord(word string, pt CmdPatterns) string {
 		case ' ':
 			sb.WriteString(`\s+`)
 		default:
-			sb.WriteByte(c)
+			sb.WriteRune(c)
 		}
 	}
 	if suffix != "" {
@@ -117,6 +128,8 @@ func Eval(r *Resolved, cfg Config) (string, error) {
 					f.words = append(f.words, CmdWord(l.T, f.pt))
 				}
 				continue
+			case KAStart, KCStart:
+				// a nested block is a single unit among the words
 			default:
 				return "", fmt.Errorf("line kind %s inside cmdline block is outside the plain reading", l.K)
 			}
@@ -162,7 +175,11 @@ func Eval(r *Resolved, cfg Config) (string, error) {
 			v := f.value()
 			stack = stack[:len(stack)-1]
 			if v != "" {
-				top().alt = append(top().alt, v)
+				if top().cmd {
+					top().words = append(top().words, v)
+				} else {
+					top().alt = append(top().alt, v)
+				}
 			}
 		default:
 			return "", fmt.Errorf("unexpected line kind %s", l.K)
